@@ -20,11 +20,22 @@ def genotype_class(ctx, f: FunctionInfo):
     return ctx.prog.classes.get(full) if full else None
 
 
-def _deep(v: Any) -> Any:
+def _deep(v: Any, memo: Optional[dict] = None) -> Any:
+    """copy.deepcopy on model values: like the real one it keeps sharing *inside* the copied structure (memo by identity)"""
+    memo = {} if memo is None else memo
+    if id(v) in memo:
+        return memo[id(v)]
     if isinstance(v, list):
-        return [_deep(x) for x in v]
+        out: Any = []
+        memo[id(v)] = out
+        out.extend(_deep(x, memo) for x in v)
+        return out
     if isinstance(v, dict):
-        return {k: _deep(x) for k, x in v.items()}
+        out = {}
+        memo[id(v)] = out
+        for k, x in v.items():
+            out[k] = _deep(x, memo)
+        return out
     return v
 
 
@@ -55,8 +66,11 @@ class Script:
             return self.bools.pop(0) if self.bools else UNKNOWN
         if nm == "choice" and len(args) == 1 and isinstance(args[0], list) and args[0]:
             return args[0][self.choice_idx % len(args[0])]
-        if nm in ("deepcopy", "copy") and len(args) == 1:
+        if nm == "deepcopy" and len(args) == 1:
             return _deep(args[0])
+        if nm == "copy" and len(args) == 1 and isinstance(call.func, (ast.Name, ast.Attribute)):
+            v = args[0]
+            return list(v) if isinstance(v, list) else dict(v) if isinstance(v, dict) else v
         if nm == "Genotype_ctor":
             return None
         return None
